@@ -714,8 +714,8 @@ func TestC20(t *testing.T) {
 	runProperty(t, r,
 		Stage[c20TypeCase]{Name: "resource-types", Enum: c20EnumTypes, Run: c20RunType},
 		Stage[c20ValueCase]{Name: "extension-values", Enum: c20EnumValues, Run: c20RunValue},
-		Stage[c20BundleCase]{Name: "bundles", Gen: c20GenBundle, Run: c20RunBundle, N: pick(1000, 20000)},
-		Stage[c20MutCase]{Name: "extension-mutators", Gen: c20GenMut, Run: c20RunMut, N: pick(5000, 120000)},
-		Stage[c20ExtractCase]{Name: "extraction", Gen: c20GenExtract, Run: c20RunExtract, N: pick(1500, 40000)},
+		Stage[c20BundleCase]{Name: "bundles", Gen: c20GenBundle, Run: c20RunBundle, N: pick(3000, 20000)},
+		Stage[c20MutCase]{Name: "extension-mutators", Gen: c20GenMut, Run: c20RunMut, N: pick(15000, 120000)},
+		Stage[c20ExtractCase]{Name: "extraction", Gen: c20GenExtract, Run: c20RunExtract, N: pick(4500, 40000)},
 	)
 }
